@@ -28,15 +28,58 @@ def load_mutants(prop: str) -> list[dict]:
     return list(mod.MUTANTS)
 
 
+def _apply(src: str, m: dict):
+    """Apply find/replace, optionally restricted to the source segment of one function
+    (``func`` = dotted path inside the file, e.g. ``Detector.empty`` or ``run_pipeline``)."""
+    import ast
+
+    lo, hi = 0, len(src)
+    if m.get("func"):
+        try:
+            tree = ast.parse(src)
+        except SyntaxError as exc:
+            return None, f"unparsable: {exc}"
+        node = tree
+        for part in m["func"].split("."):
+            nxt = None
+            want_setter = part.endswith("#setter")
+            pname = part.replace("#setter", "")
+            for ch in ast.iter_child_nodes(node):
+                if isinstance(ch, (ast.FunctionDef, ast.AsyncFunctionDef, ast.ClassDef)) and ch.name == pname:
+                    is_setter = any("setter" in ast.unparse(d) for d in getattr(ch, "decorator_list", []))
+                    if want_setter != is_setter and isinstance(ch, ast.FunctionDef) and (want_setter or is_setter):
+                        continue
+                    nxt = ch
+                    break
+            if nxt is None:
+                return None, f"function {m['func']} not found"
+            node = nxt
+        lines = src.splitlines(keepends=True)
+        first = min([node.lineno] + [d.lineno for d in getattr(node, "decorator_list", [])])
+        lo = sum(len(x) for x in lines[: first - 1])
+        hi = sum(len(x) for x in lines[: node.end_lineno])
+    seg = src[lo:hi]
+    cnt = seg.count(m["find"])
+    if cnt != m.get("count", 1):
+        return None, f"pattern occurs {cnt}x"
+    if "nth" in m:
+        idx = -1
+        for _ in range(m["nth"] + 1):
+            idx = seg.index(m["find"], idx + 1)
+        seg = seg[:idx] + m["replace"] + seg[idx + len(m["find"]):]
+    else:
+        seg = seg.replace(m["find"], m["replace"])
+    return src[:lo] + seg + src[hi:], ""
+
+
 def _run_one(args):
     prop, repo_root, m = args
     try:
         path = Path(repo_root) / m["file"]
         src = path.read_text()
-        cnt = src.count(m["find"])
-        if cnt != m.get("count", 1):
-            return (m["name"], "not-applicable", f"pattern occurs {cnt}x")
-        new = src.replace(m["find"], m["replace"])
+        new, msg = _apply(src, m)
+        if new is None:
+            return (m["name"], "not-applicable", msg)
         try:
             compile(new, m["file"], "exec")
         except SyntaxError as exc:
@@ -45,9 +88,14 @@ def _run_one(args):
         for extra in m.get("also", []):
             p2 = Path(repo_root) / extra["file"]
             s2 = overlay.get(extra["file"]) or p2.read_text()
-            if s2.count(extra["find"]) != extra.get("count", 1):
-                return (m["name"], "not-applicable", "secondary pattern not found")
-            overlay[extra["file"]] = s2.replace(extra["find"], extra["replace"])
+            n2, msg = _apply(s2, extra)
+            if n2 is None:
+                return (m["name"], "not-applicable", "secondary: " + msg)
+            overlay[extra["file"]] = n2
+            try:
+                compile(n2, extra["file"], "exec")
+            except SyntaxError as exc:
+                return (m["name"], "broken-mutant", f"does not compile: {exc}")
         mod = harness.load_prop(prop)
         repo = Repo(repo_root, overlay=overlay)
         ctx = harness.Ctx(prop, repo, "quick")
